@@ -43,7 +43,9 @@ fn exec(p: &mut Pair, op: &Op) -> Vec<u8> {
             serde_json::to_vec(&p.dev.handle_request(&m)).unwrap()
         }
         Op::Prepare(mask) => {
-            let chosen: Vec<&str> = DOCS.iter().enumerate().filter(|(i, _)| mask & (1 << i) != 0).map(|(_, d)| *d).collect();
+            // bit 2: a document type the holder does not own (gives documentErrors)
+            let all = [DOCS[0], DOCS[1], "org.example.unheld"];
+            let chosen: Vec<&str> = all.iter().enumerate().filter(|(i, _)| mask & (1 << i) != 0).map(|(_, d)| *d).collect();
             let reqs: Vec<ItemsRequest> = chosen.iter().map(|d| ItemsRequest { doc_type: d.to_string(),
                 namespaces: sess::simple_namespaces(&["family_name", "age_over_18", "zzz"]), request_info: None }).collect();
             p.dev.prepare_response(&reqs, sess::permit_all(&chosen, &["family_name", "age_over_18", "zzz"]));
@@ -74,7 +76,7 @@ fn random_op(ctx: &mut Ctx) -> Op {
         0..=14 => Op::NewRequest(ctx.rng.gen()),
         15..=29 => Op::ToDev(if ctx.rng.gen_bool(0.7) { 0 } else { ctx.rng.gen() }, if ctx.rng.gen_bool(0.85) { 0 } else { ctx.rng.gen() }),
         30..=34 => Op::Malformed(ctx.rng.gen()),
-        35..=49 => Op::Prepare(ctx.rng.gen_range(0..4)),
+        35..=49 => Op::Prepare(ctx.rng.gen_range(0..8)),
         50..=55 => Op::GetNext,
         56..=72 => Op::Submit(ctx.rng.gen_bool(0.85)),
         73..=76 => Op::Ready,
@@ -132,11 +134,11 @@ pub fn run(ctx: &mut Ctx) {
         let mut script: Vec<Op> = vec![];
         while script.len() < len {
             if ctx.rng.gen_bool(0.55) {
-                let mask = ctx.rng.gen_range(0..4u8);
+                let mask = ctx.rng.gen_range(0..8u8);
                 script.push(Op::NewRequest(ctx.rng.gen()));
                 script.push(Op::ToDev(0, 0));
                 script.push(Op::Prepare(mask));
-                for _ in 0..(mask.count_ones().max(1)) { script.push(Op::Submit(true)); }
+                for _ in 0..((mask & 3).count_ones().max(1)) { script.push(Op::Submit(true)); }
                 script.push(Op::Ready);
                 script.push(Op::Retrieve);
                 script.push(Op::ToRdr(0, 0));
